@@ -1008,8 +1008,34 @@ class C03(PropertyCheck):
                     res.observations.append({"what": "unlabeled samples (-1) are dropped (outside the claim: labels in range)", "case": c, "lost": lost})
             if len(res.samples) < 5 and real["out"] == "ok" and real["len"] >= 3 and c["w"] in ("oversampling", "fewshot", "intra_class_shuffle", "classwise_subset", "percent_filter") and res.cases % 7 == 0:
                 res.samples.append({"case": c, "indices": real["indices"], "tape": real["tape"]})
+        self.exact_cut_leg(res)
         res.failures.sort(key=lambda f: len(json.dumps(f.input)))
         return res
+
+    def exact_cut_leg(self, res):
+        """the exact-rational cuts `exactCutF / exactCutC` (Model/C03Spec, the functions of the `*_exact_*` theorems) against the code's
+        float expressions `int(p * n)`, `int(np.ceil(p * n))`, `int(p * torch.tensor(k))` for decimal percents p = k/100, k/8, k/3:
+        agreement is counted; the grid points where binary floating point puts p * n on the other side of an integer (e.g.
+        0.29 * 100 = 28.999999999999996) are listed as observations -- the partition / contiguity theorems hold for ANY monotone cut
+        with cut(0) = 0 and cut(1) = n (proved for both), so such a point shifts a boundary by one sample but breaks no clause"""
+        from fractions import Fraction
+        ps = sorted({Fraction(k, 100) for k in range(0, 101)} | {Fraction(k, 8) for k in range(9)} | {Fraction(k, 3) for k in range(4)})
+        ns = list(range(0, 41)) + [50, 64, 99, 100, 101, 128, 1000]
+        rows = [[p.numerator, p.denominator, n] for p in ps for n in ns]
+        ans = self.driver.run([{"op": "sel.exactCut", "rows": rows}])[0]
+        dev = []
+        for (a, b, n), (mf, mc) in zip(rows, ans):
+            p = a / b
+            got = (cutF(p, n), cutC(p, n), cutT(p, n))
+            if got != (mf, mc, mf):
+                dev.append({"p": f"{a}/{b}", "n": n, "exact_floor_ceil": [mf, mc], "float_floor_ceil_torchfloor": list(got)})
+        res.cases += 1
+        res.bump(f"exact-cut-grid-points={len(rows)}")
+        res.bump(f"exact-cut-float-deviations={len(dev)}")
+        if dev:
+            res.observations.append({"what": f"float front end vs exact rational cut: {len(dev)} of {len(rows)} grid points differ (binary rounding of "
+                                             "p*n across an integer); partition/contiguity are unaffected (proved for every monotone cut)",
+                                     "first": dev[:8]})
 
     # ---- replay / search -------------------------------------------------------------------------
     def replay_input(self, inp):
